@@ -4,6 +4,7 @@
    agreement with the documented orders for exact numbers, refutation
    witnesses for the mixed exact/inexact cases. *)
 From verif Require Import lib.Base model.C08_Value model.C09 proofs.C08_Value_proofs.
+From verif Require Import proofs.C09_float_proofs.
 From Coq Require Import QArith Arith.
 Close Scope Q_scope.
 Open Scope N_scope.
@@ -602,39 +603,120 @@ Qed.
 
 (* ------------------------------------------------------------------ *)
 (* the documented orders: Cmp answers what the specification says, for values
-   whose numbers are exact *)
-Lemma spec_cmp_exact_n n : forall a b o,
-  (vsize a < n)%nat -> nums_all is_exact a = true -> nums_all is_exact b = true ->
-  spec_cmp a b = Some o -> cmp a b = o.
+   whose numbers are all exact or all floats *)
+Section SpecAgree.
+  Variable p : value -> bool.
+  (* agreement on the numbers themselves *)
+  Hypothesis p_spec : forall a b o, is_num a = true -> p a = true -> nums_all p b = true ->
+    spec_cmp a b = Some o -> cmp_num a b = o.
+
+  Lemma spec_cmp_agree_n n : forall a b o,
+    (vsize a < n)%nat -> nums_all p a = true -> nums_all p b = true ->
+    spec_cmp a b = Some o -> cmp a b = o.
+  Proof.
+    induction n as [|n IH]; intros a b o Sz A B H; [lia|].
+    unfold cmp. rewrite cmp_is_inner.
+    destruct (is_num a) eqn:Na.
+    { rewrite inner_num_l by assumption. apply p_spec; auto.
+      destruct a; try discriminate Na; exact A. }
+    destruct a; try discriminate H; try discriminate Na.
+    - destruct b; try discriminate H. cbn in *. now inversion H.
+    - destruct b; try discriminate H. cbn in *. now inversion H.
+    - destruct b; try discriminate H. cbn [inner]. cbn [spec_cmp] in H.
+      rewrite nums_all_list in A, B.
+      assert (Hs : forall x, In x l -> (vsize x < n)%nat).
+      { intros x Hx. pose proof (vsize_list_in sub l x Hx). lia. }
+      clear Sz Na. revert l0 B H. induction l as [|x l IHl]; intros [|q l0] B H; cbn in *;
+        try (now inversion H).
+      apply andb_true_iff in A as [Ap A]. apply andb_true_iff in B as [Bq B].
+      destruct (spec_cmp x q) as [r|] eqn:E; [|discriminate].
+      rewrite cmpg_false_rk, (IH x q r); auto.
+      destruct r; try (now inversion H). apply IHl; auto.
+  Qed.
+End SpecAgree.
+
+Lemma exact_spec a b o :
+  is_num a = true -> is_exact a = true -> nums_all is_exact b = true ->
+  spec_cmp a b = Some o -> cmp_num a b = o.
 Proof.
-  induction n as [|n IH]; intros a b o Sz A B H; [lia|].
-  unfold cmp. rewrite cmp_is_inner.
-  destruct a; try discriminate H.
-  - destruct b; try discriminate H. cbn in *. now inversion H.
-  - destruct b; try discriminate H; try (cbn in B; discriminate B);
-      cbn in H; injection H as <-; cbn [inner]; rewrite cmp_num_exact by auto; reflexivity.
-  - destruct b; try discriminate H; try (cbn in B; discriminate B);
-      cbn in H; injection H as <-; cbn [inner]; rewrite cmp_num_exact by auto; reflexivity.
-  - destruct b; try discriminate H; try (cbn in B; discriminate B);
-      cbn in H; injection H as <-; cbn [inner]; rewrite cmp_num_exact by auto; reflexivity.
-  - cbn in A. discriminate A.
-  - destruct b; try discriminate H. cbn in *. now inversion H.
-  - destruct b; try discriminate H. cbn [inner]. cbn [spec_cmp] in H.
-    rewrite nums_all_list in A, B.
-    assert (Hs : forall p, In p l -> (vsize p < n)%nat).
-    { intros p Hp. pose proof (vsize_list_in sub l p Hp). lia. }
-    clear Sz. revert l0 B H. induction l as [|p l IHl]; intros [|q l0] B H; cbn in *;
-      try (now inversion H).
-    apply andb_true_iff in A as [Ap A]. apply andb_true_iff in B as [Bq B].
-    destruct (spec_cmp p q) as [r|] eqn:E; [|discriminate].
-    rewrite cmpg_false_rk, (IH p q r); auto.
-    destruct r; try (now inversion H). apply IHl; auto.
+  intros Na Ea B H.
+  destruct a; try discriminate Ea;
+    (destruct b; try discriminate H; try (cbn in B; discriminate B);
+     cbn in H; injection H as <-; rewrite cmp_num_exact by auto; reflexivity).
+Qed.
+
+Lemma float_spec a b o :
+  is_num a = true -> is_float a = true -> nums_all is_float b = true ->
+  spec_cmp a b = Some o -> cmp_num a b = o.
+Proof.
+  intros Na Fa B H. destruct a; try discriminate Fa.
+  destruct b; try discriminate H; try (cbn in B; discriminate B).
+  rewrite cmp_float_is_spec in H. injection H as <-. reflexivity.
 Qed.
 
 Theorem cmp_is_spec_exact a b o :
   nums_all is_exact a = true -> nums_all is_exact b = true ->
   spec_cmp a b = Some o -> cmp a b = o.
-Proof. apply (spec_cmp_exact_n (S (vsize a))). lia. Qed.
+Proof. apply (spec_cmp_agree_n is_exact exact_spec (S (vsize a))). lia. Qed.
+
+Theorem cmp_is_spec_inexact a b o :
+  nums_all is_float a = true -> nums_all is_float b = true ->
+  spec_cmp a b = Some o -> cmp a b = o.
+Proof. apply (spec_cmp_agree_n is_float float_spec (S (vsize a))). lia. Qed.
+
+(* all values whose numbers are all exact or all inexact *)
+Definition same_exactness (a b : value) : Prop :=
+  (nums_all is_exact a = true /\ nums_all is_exact b = true) \/
+  (nums_all is_float a = true /\ nums_all is_float b = true).
+
+Theorem cmp_is_spec a b o : same_exactness a b -> spec_cmp a b = Some o -> cmp a b = o.
+Proof. intros [[A B]|[A B]]; [now apply cmp_is_spec_exact|now apply cmp_is_spec_inexact]. Qed.
+
+(* every pair of floats: compare = the documented order *)
+Theorem cmp_float_pair_is_spec x y : spec_cmp (VFloat x) (VFloat y) = Some (cmp (VFloat x) (VFloat y)).
+Proof. rewrite cmp_float_is_spec. reflexivity. Qed.
+
+(* the documented order itself is transitive on floats (and lists of floats,
+   strings, ...): stated on spec_cmp *)
+Theorem spec_trans_inexact a b c o1 o2 o3 o :
+  wf a -> wf b -> wf c ->
+  nums_all is_float a = true -> nums_all is_float b = true -> nums_all is_float c = true ->
+  spec_cmp a b = Some o1 -> spec_cmp b c = Some o2 -> spec_cmp a c = Some o3 ->
+  comp o1 o2 = Some o -> o3 = o.
+Proof.
+  intros Wa Wb Wc A B C H1 H2 H3 K.
+  apply cmp_is_spec_inexact in H1, H2, H3; auto. subst.
+  now apply (cmp_trans_inexact a b c Wa Wb Wc A B C).
+Qed.
+
+Theorem spec_trans_exact a b c o1 o2 o3 o :
+  wf a -> wf b -> wf c ->
+  nums_all is_exact a = true -> nums_all is_exact b = true -> nums_all is_exact c = true ->
+  spec_cmp a b = Some o1 -> spec_cmp b c = Some o2 -> spec_cmp a c = Some o3 ->
+  comp o1 o2 = Some o -> o3 = o.
+Proof.
+  intros Wa Wb Wc A B C H1 H2 H3 K.
+  apply cmp_is_spec_exact in H1, H2, H3; auto. subst.
+  now apply (cmp_trans_exact a b c Wa Wb Wc A B C).
+Qed.
+
+(* the three mixed-compare finding classes, exactly: an exact number meeting a
+   float is first rounded by ConvertToFloat64 (to_f64), then compared as a float *)
+Theorem mixed_compare_is_float_rounding a y :
+  is_exact a = true ->
+  cmp a (VFloat y) = cmp (VFloat (to_f64 a)) (VFloat y) /\
+  cmp (VFloat y) a = cmp (VFloat y) (VFloat (to_f64 a)).
+Proof. destruct a; try discriminate; intros _; split; reflexivity. Qed.
+
+(* hence the mixed answer differs from the documented one exactly when rounding
+   moves a across y: it is the documented order of (to_f64 a) and y *)
+Theorem mixed_compare_spec_of_rounded a y :
+  is_exact a = true ->
+  spec_cmp (VFloat (to_f64 a)) (VFloat y) = Some (cmp a (VFloat y)).
+Proof.
+  intros E. rewrite (proj1 (mixed_compare_is_float_rounding a y E)).
+  apply cmp_float_pair_is_spec.
+Qed.
 
 (* ------------------------------------------------------------------ *)
 (* refutation witnesses *)
